@@ -984,6 +984,11 @@ func c01Collapse(c *kit.Ctx, m *storeModel, r5 *kit.Rule) {
 	info := cf.Info()
 	// (i) called on the batch on every path before the merge loop / Begin
 	for _, w := range m.writers {
+		if w.Begin == nil {
+			r5.Ob(w.F, nil, w.Table+": de-duplication before merge", "the batch is de-duplicated on every path before the transaction begins").
+				Undecided("the call that begins the transaction of %s is not found (not db.Begin and not a recognised opener)", w.F.Name)
+			continue
+		}
 		o := r5.Ob(w.F, w.Begin, w.Table+": de-duplication before merge", "the batch is de-duplicated on every path before the transaction begins")
 		f := w.F
 		st := &kit.Std{F: f}
